@@ -186,6 +186,39 @@ def check(run):
             run.gap_case("Modes-size-deduction", (size, ell_min), "perfect" if perfect else "imperfect")
             if size > 0 and perfect != (kind == "ok"):
                 v("Modes-size-deduction", "Modes.__new__", {"size": size, "ell_min": ell_min}, "accept exactly perfect sizes", kind)
+    # ---- objects with a history: deriving other objects from a Modes (truncation, views, copies, conjugates, in-place changes
+    # of the DERIVED object) must leave the parent a consistent object: same label, same answers, same rejections
+    import copy as _copy
+    import pickle as _pickle
+    for s_ in ((0, -2) if quick else (-2, -1, 0, 1, 3)):
+        Lp = 6
+        m = helpers.make_modes(rng, s_, Lp, (2,))
+        w6, w2 = spherical.Wigner(Lp), spherical.Wigner(max(abs(s_), 2))
+        ref = {h: np.array(w6.evaluate(m, Rq, horner=h)) for h in (True, False)}
+        data0 = m.ndarray.copy()
+        derivations = [("truncate_ell", lambda: m.truncate_ell(max(abs(s_), 2))), ("slice", lambda: m[0]), ("copy-then-inplace-conjugate", lambda: m.copy().conjugate(inplace=True)),
+                       ("bar", lambda: m.bar), ("np.conjugate", lambda: np.conjugate(m)),
+                       ("product", lambda: m * m), ("copy.copy-then-truncate", lambda: _copy.copy(m).truncate_ell(max(abs(s_), 2))), ("pickle", lambda: _pickle.loads(_pickle.dumps(m))),
+                       ("sum", lambda: m + m), ("slice-then-truncate", lambda: m[1].truncate_ell(max(abs(s_), 2)))]
+        for dname, dfn in derivations:
+            inp = {"s": s_, "ell_max": Lp, "lead": [2], "derivation": dname}
+            run.gap_case("parent-after-derivation", (s_, dname), dname)
+            try:
+                derived = dfn()
+            except Exception as e:
+                v("in-range-request-raised", f"Modes.{dname}", inp, "a Modes object", repr(e))
+                continue
+            if m.ell_max != Lp or m.spin_weight != s_ or m.shape != data0.shape or not np.array_equal(m.ndarray, data0):
+                v("derivation-altered-parent", f"Modes.{dname}", inp, f"parent unchanged (ell_max={Lp}, s={s_})", f"ell_max={m.ell_max}, s={m.spin_weight}, data {'equal' if np.array_equal(m.ndarray, data0) else 'changed'}")
+                m._metadata["ell_max"], m._metadata["spin_weight"] = Lp, s_
+                continue
+            for h in (True, False):
+                kind, res = outcome(lambda: w6.evaluate(m, Rq, horner=h))
+                if kind != "ok" or not np.allclose(np.asarray(res), ref[h], rtol=1e-13, atol=1e-13):
+                    v("wrong-values", f"Wigner.evaluate[horner={h}] after {dname}", inp, "same values as before the derivation", "raised" if kind != "ok" else "differs")
+                kind, res = outcome(lambda: w2.evaluate(m, Rq, horner=h))
+                if kind == "ok":
+                    v("out-of-range-request-not-rejected", f"Wigner.evaluate[horner={h}] after {dname}", {**inp, "calculator_ell_max": w2.ell_max}, "raise (modes exceed the calculator)", "returned values")
     run.assumptions += ["reference predicate written from the docstrings (see module text); values compared with Wigner(LM+2)"]
 
 
